@@ -219,7 +219,7 @@ def _flags():
 FLAGS = _flags()
 
 SEPS = ('none', 'blank', 'prose')
-FRAMES = [(0, False), (4, False), (8, False), ('tab', False), (0, True), (4, True)]
+FRAMES = [(0, False), (4, False), (8, False), ('tab', False), (0, True), (4, True), (4, 'outdent')]
 
 
 SHIFT_SEPS = ('in', 'out')      # directly after a want: the following lines are indented 4 more / 4 less
@@ -326,7 +326,11 @@ def build(frame, items, extra_pre=''):
     indent, lead = frame
     pad = '\t' if indent == 'tab' else ' ' * indent
     lines = [pad + l if l else l for l in doc]
-    if lead:
+    if lead == 'outdent':
+        # prose in column 0 above a doctest that sits 4 columns deeper: after the common de-indentation the prompts
+        # are still indented
+        lines = ['Leading prose.', ''] + lines
+    elif lead:
         lines = [pad + 'Leading prose.', ''] + lines
     anycode = any(not FLAGS[it[0]]['nocode'] for it in items)
     return {'text': '\n'.join(lines), 'stmts': allstmts, 'ns': ns, 'outs': outs, 'echo_ok': echo_ok,
